@@ -490,6 +490,19 @@ def gen_case(g: AGen, opts: dict) -> dict:
     return {"ann": a, "xs": xs, "classes": g.classes, "resolver": opts.get("resolver", "default")}
 
 
+def _other_resolver(annotation: Any) -> Any:
+    """a user-written typehint resolver: different leaves, the library's structure for everything else"""
+    from koda_validate import FloatValidator, IntValidator, StringValidator, upper_case
+    from koda_validate.typehints import get_typehint_validator_base
+    if annotation is str:
+        return StringValidator(preprocessors=[upper_case])
+    if annotation is float:
+        return IntValidator()
+    if annotation is int:
+        return FloatValidator()
+    return get_typehint_validator_base(_other_resolver, annotation)
+
+
 def run_case(case: dict, rng: random.Random) -> Tuple[Optional[str], List[dict], List[str], List[dict]]:
     """returns (unbuildable, model requests, failures, real observations)"""
     from koda_validate.typehints import get_typehint_validator
@@ -503,6 +516,13 @@ def run_case(case: dict, rng: random.Random) -> Tuple[Optional[str], List[dict],
             _f()
         ann = build_ann(ctx, case["ann"], rng)
         resolver = get_typehint_validator if case["resolver"] == "default" else resolve_signature_typehint_default
+        # history: the same annotation is first derived through a user-written resolver (public API:
+        # `typehint_resolver=` / `get_typehint_validator_base`) that answers differently for leaf types.  What the
+        # library's own resolvers derive afterwards must not depend on that.
+        try:
+            _other_resolver(ann)
+        except Exception:  # noqa
+            pass
         v = resolver(ann)
         xs = [wire.mk_value(ctx, x) for x in case["xs"]]
     except Exception as e:  # noqa
